@@ -21,10 +21,93 @@ func scaleCases(tier string) []scalekit.Case {
 	for n := 4; n <= 300; n++ {
 		out = append(out, scalekit.Case{Shape: "typedef-name-length", N: n})
 	}
+	for _, n := range scale.Sizes(48, 257) {
+		out = append(out, scalekit.Case{Shape: "many-leaves", N: n}, scalekit.Case{Shape: "counts", N: n})
+	}
+	for _, n := range scale.Sizes(64, 4097) {
+		out = append(out, scalekit.Case{Shape: "long-arguments", N: n})
+	}
 	return out
 }
 
+func checkMany(cs scalekit.Case) scalekit.Verdict {
+	var f dump.File
+	arg := ""
+	switch cs.Shape {
+	case "many-leaves":
+		f = scale.ManyLeaves(cs.N)
+	case "counts":
+		f = scale.Counts(cs.N)
+	case "long-arguments":
+		f, arg = scale.LongArgs(cs.N)
+	}
+	ms, errs, lerr := scalekit.Load([]dump.File{f}, false)
+	if lerr != nil {
+		return scalekit.Bad("load-error", "loads", lerr.Error())
+	}
+	if len(errs) > 0 {
+		return scalekit.Bad("spurious-errors", "no errors", dump.Errors(errs))
+	}
+	root := yang.ToEntry(ms.Modules["m"])
+	typ := func(name string) *yang.YangType {
+		if e := root.Dir[name]; e != nil {
+			return e.Type
+		}
+		return nil
+	}
+	switch cs.Shape {
+	case "many-leaves":
+		for i := 0; i < cs.N; i++ {
+			for _, x := range []struct{ name, want string }{
+				{fmt.Sprintf("a%d", i), "kind=int16 range=1..500 default=7 units=u"},
+				{fmt.Sprintf("b%d", i), fmt.Sprintf("kind=int16 range=3..%d default=7 units=u", 10+i%300)},
+				{fmt.Sprintf("c%d", i), "kind=int16 range=1..500 default=7 units=u"},
+			} {
+				t := typ(x.name)
+				if t == nil {
+					return scalekit.Bad("leaf-without-type", x.name, "nil")
+				}
+				if got := fmt.Sprintf("kind=%s range=%s default=%s units=%s", yang.TypeKindToName[t.Kind], t.Range, t.Default, t.Units); got != x.want {
+					return scalekit.Bad("chain-attributes-wrong", x.name+": "+x.want, got)
+				}
+			}
+		}
+	case "counts":
+		pt, ut := typ("pl"), typ("ul")
+		if pt == nil || len(pt.Pattern) != cs.N || pt.Pattern[0] != "p0.*" || pt.Pattern[cs.N-1] != fmt.Sprintf("p%d.*", cs.N-1) {
+			return scalekit.Bad("patterns-not-accumulated", fmt.Sprintf("%d patterns p0.* .. p%d.*", cs.N, cs.N-1), fmt.Sprint(pt != nil && true, pt))
+		}
+		if ut == nil || len(ut.Type) != cs.N {
+			n := -1
+			if ut != nil {
+				n = len(ut.Type)
+			}
+			return scalekit.Bad("union-members-lost", fmt.Sprintf("%d members", cs.N), fmt.Sprint(n))
+		}
+		for i, m := range ut.Type {
+			if m.Length.String() != fmt.Sprint(i+1) {
+				return scalekit.Bad("union-members-lost", fmt.Sprintf("member %d with length %d", i, i+1), m.Length.String())
+			}
+		}
+	case "long-arguments":
+		l := root.Dir["l"]
+		if l == nil || l.Type == nil || len(l.Type.Pattern) != 1 || l.Type.Pattern[0] != arg+".*" {
+			return scalekit.Bad("pattern-not-carried", "the written pattern of "+fmt.Sprint(len(arg)+2)+" bytes", "another")
+		}
+		if fmt.Sprint(l.Default) != "["+arg+"]" { // (a leaf's own units are not exposed by the library)
+			return scalekit.Bad("long-argument-changed", "default as written", fmt.Sprintf("default=%v units=%q typeunits=%q", l.Default, l.Units, l.Type.Units))
+		}
+		if r := root.Dir["r"]; r == nil || r.Type == nil || r.Type.Path != "/m:t[m:"+arg+" = 1]" {
+			return scalekit.Bad("path-not-carried", "the written path", "another")
+		}
+	}
+	return scalekit.OK()
+}
+
 func checkScale(cs scalekit.Case) scalekit.Verdict {
+	if cs.Shape == "many-leaves" || cs.Shape == "counts" || cs.Shape == "long-arguments" {
+		return checkMany(cs)
+	}
 	var f dump.File
 	switch cs.Shape {
 	case "typedef-chain":
